@@ -98,6 +98,13 @@ def main(tier):
                     return "forced pivot order %s not honoured although every requested pivot was eligible: perm_r = %s" % (want, res["permr"])
         return None
     pipecheck.run_traces(ck, jobs, out, judge=judge, precs=("d",) if quick else ("d", "s", "z", "c"))
+    # the same factorizations in the configuration of the repository's own CMake build (USE_VENDOR_BLAS: the 1-D / 2-D supernodal updates and the
+    # supernode-internal solves go to ?trsv_ / ?gemv_ of the BLAS -- other branches of the panel and column kernels): every job that is not a
+    # forced-order pattern job, in double precision (thorough: all four)
+    vjobs = [dict(j, id=j["id"] + "v", out=j["out"].replace(".ndjson", "_v.ndjson")) for j in jobs if not j["id"].startswith("fp")]
+    build.ensure("vendor")
+    pipecheck.run_traces(ck, vjobs, out, judge=judge, precs=("d",) if quick else ("d", "s", "z", "c"), variant="vendor")
+    ck.notes["factorizations_in_the_USE_VENDOR_BLAS_configuration"] = len(vjobs) * (1 if quick else 4)
     ck.notes["forced_orders_with_info0"] = forced.get("n", 0)
     return ck.finish()
 
